@@ -103,6 +103,10 @@ fn generated_key_case(t: &mut Tape, rec: &mut Rec) -> CaseResult {
     let mut b = SecretKeyParamsBuilder::default();
     b.version(version).key_type(prim.clone()).can_certify(true).can_sign(true).created_at(Timestamp::from_secs(created)).primary_user_id("fp <fp@example.org>".into());
     b.subkey(SubkeyParamsBuilder::default().version(version).key_type(sub).can_encrypt(EncryptionCaps::All).created_at(Timestamp::from_secs(created ^ 0x5555)).build().map_err(|e| f("C13:params", e.to_string()))?);
+    let signing_subkey = matches!(shape, 0 | 2 | 3) && t.bool();
+    if signing_subkey {
+        b.subkey(SubkeyParamsBuilder::default().version(version).key_type(prim.clone()).can_sign(true).created_at(Timestamp::from_secs(created ^ 0x3333)).build().map_err(|e| f("C13:params", e.to_string()))?);
+    }
     let key = b.build().map_err(|e| f("C13:params", e.to_string()))?.generate(&mut rng).map_err(|e| f("C13:keygen-error", e.to_string()))?;
     rec.label(format!("generated:{:?}:{:?}", version, prim));
     rec.nontrivial((shape, created, hex::encode(&key.fingerprint().as_bytes()[..4])));
@@ -143,12 +147,35 @@ fn generated_key_case(t: &mut Tape, rec: &mut Rec) -> CaseResult {
         }
         Err(e) => rec.soft_fail("C13:own-serialization-rejected", e.to_string()),
     }
-    // issuer subpackets of the self-signatures the generator made
+    // issuer subpackets of the self-signatures the generator made (issuer = primary), and of the
+    // embedded primary-key-binding signatures of signing subkeys (issuer = that subkey)
+    if signing_subkey {
+        rec.label("generated:with-signing-subkey");
+    }
     let v = if version == KeyVersion::V6 { 6u8 } else { 4 };
+    let mut current_subkey: Option<(Vec<u8>, Vec<u8>, u8)> = None;
     for rp in wire::split_packets(&pb).unwrap() {
+        if rp.tag == 14 {
+            current_subkey = ref_ids(&rp.body, false);
+        }
         if rp.tag == 2 {
             let sf = parse_sig(&rp.body).ok_or_else(|| f("C13:self-signature-does-not-decode", ""))?;
             check_issuer(rec, "generated key self-signature", &sf, v, &fp_ref.0, &fp_ref.1, true);
+            if let Some((sfp, sid, _)) = &current_subkey {
+                for area in [&sf.hashed, &sf.unhashed] {
+                    for (typ, body) in SigFields::subpackets(area).unwrap_or_default() {
+                        if typ & 0x7f == 32 {
+                            match parse_sig(&body) {
+                                Some(esf) => {
+                                    rec.label("embedded-back-signature-checked");
+                                    check_issuer(rec, "embedded primary key binding signature", &esf, v, sfp, sid, true)
+                                }
+                                None => rec.soft_fail("C13:embedded-signature-does-not-decode", String::new()),
+                            }
+                        }
+                    }
+                }
+            }
         }
     }
     Ok(())
